@@ -791,12 +791,15 @@ class Interp:
             return self.operand(f, L, r[1])
         if k == 'ref':
             ptr = self.place(f, L, r[1])
-            try:
-                v = ptr.get()
-            except (KeyError, IndexError):
-                return ptr
-            if isinstance(v, (Str, Slice)):
-                return v    # fat reference value
+            projs = r[1][1]
+            if projs and projs[-1][0] == 'deref':
+                # reborrow of an unsized place (str / [T]): the fat reference is its own value
+                try:
+                    v = ptr.get()
+                except (KeyError, IndexError):
+                    return ptr
+                if isinstance(v, (Str, Slice)):
+                    return v
             return ptr
         if k == 'binop':
             x = self.operand(f, L, r[2])
